@@ -2,7 +2,7 @@
    In the model every entry point is [load]; that the library's entry points agree with each
    other is the correspondence check's claim, not a theorem (see DESIGN.md). *)
 From Coq Require Import List NArith ZArith Bool Lia.
-From SV Require Import Sx Str Omap Msd Simfile Proofs.MsdFacts Proofs.LoadFacts Proofs.LoadSpec.
+From SV Require Import Sx Str Omap Msd Simfile Proofs.MsdFacts Proofs.LoadFacts Proofs.LoadSpec Proofs.DetectSpec.
 Import ListNotations.
 Open Scope N_scope.
 
@@ -29,6 +29,26 @@ Proof.
   destruct (str_eqb (suffix_go (lower name) []) sSM); reflexivity.
 Qed.
 Print Assumptions C03_detect_rule.
+
+(* what "the file name ends in .ssc / .sm" means, stated without the model's scanning function: the name, lowered, is cut at its LAST dot
+   (the part after it holds no dot) and that part alone decides; earlier dots, and a name that begins with its only dot, change nothing;
+   a name without any dot is compared whole (so a file called "sm" is an SM file) *)
+Theorem C03_format_by_last_dot : forall name pre suf, lower name = pre ++ 46 :: suf -> ~ List.In 46 suf ->
+  detect_by_name name = if str_eqb suf sSSC then Some FSSC else if str_eqb suf sSM then Some FSM else None.
+Proof. exact detect_by_last_dot. Qed.
+Print Assumptions C03_format_by_last_dot.
+
+Theorem C03_format_dotless : forall name, ~ List.In 46 (lower name) ->
+  detect_by_name name = if str_eqb (lower name) sSSC then Some FSSC else if str_eqb (lower name) sSM then Some FSM else None.
+Proof. exact detect_dotless. Qed.
+Print Assumptions C03_format_dotless.
+
+(* "Mr. Saturn.sm", ".ssc", "..SM", "a.sm.bak", "v1.2.SsC", "sm" *)
+Example C03_format_examples :
+  map detect_by_name [[77; 114; 46; 32; 83; 97; 116; 117; 114; 110; 46; 115; 109]; [46; 115; 115; 99]; [46; 46; 83; 77]; [97; 46; 115; 109; 46; 98; 97; 107];
+                      [118; 49; 46; 50; 46; 83; 115; 67]; [115; 109]]
+  = [Some FSM; Some FSSC; Some FSM; None; Some FSSC; Some FSM].
+Proof. vm_compute. reflexivity. Qed.
 
 Theorem C03_detect_by_content : forall ps,
   detect_by_content ps = match ps with (k :: _) :: _ => if str_eqb (upper k) kVERSION then FSSC else FSM | _ => FSM end.
